@@ -41,7 +41,7 @@ pub fn profiles() -> Vec<Map<String, Value>> {
         obj(json!({"k": -3, "u": 5, "p": 2.5, "s": "b", "b": true, "e": "x", "o": null, "d": 1700000001})),
         obj(json!({"k": 4, "u": 0, "p": -0.5, "s": "ab", "b": false, "e": "y", "o": 7, "d": 1699999999})),
         obj(json!({"k": i64::MIN + 1, "u": 2, "p": 3.0, "s": "Z", "b": true, "e": "z", "d": 1699900000})),
-        obj(json!({"k": 1, "u": 3, "p": 0.1, "s": "null", "b": false, "e": "x", "o": 1, "d": 1700000000})),
+        obj(json!({"k": 1, "u": 3, "p": 0.1, "s": "null", "b": false, "e": "x", "o": 1, "d": 1700028000})),
     ]
 }
 
@@ -115,7 +115,7 @@ pub fn leaf_preds() -> Vec<Pred> {
     int_l("p", &[Lit::Float(-0.5), Lit::Float(0.0), Lit::Float(1.5), Lit::Int(2), Lit::Float(2.0), Lit::Float(1.6), Lit::Int(1000)], &mut v);
     int_l("s", &[Lit::Str("".into()), Lit::Str("a".into()), Lit::Str("ab".into()), Lit::Str("aa".into()), Lit::Str("123".into()), Lit::Str("é".into()), Lit::Word("a".into())], &mut v);
     int_l("o", &[Lit::Int(3), Lit::Int(-1), Lit::Int(0), Lit::Int(2)], &mut v);
-    int_l("d", &[Lit::Int(1700000000), Lit::Int(1700003600), Lit::Str("2023-11-14T22:13:20Z".into()), Lit::Int(1700000001)], &mut v);
+    int_l("d", &[Lit::Int(1700000000), Lit::Int(1700003600), Lit::Str("2023-11-14T22:13:20Z".into()), Lit::Int(1700000001), Lit::Int(1700006400)], &mut v);
     for l in ["true", "false"] {
         for op in [Op::Eq, Op::Neq] {
             v.push(Pred::Cmp("b".into(), op, Lit::Word(l.into())));
@@ -209,6 +209,16 @@ pub fn queries(tier: &str) -> Vec<Q> {
                 pred: p.clone(),
                 ctx: None,
                 since: Some((1700000001, Some("d".into()))),
+            });
+        }
+        if i % 11 == 0 {
+            // a bound at midnight of the day after most instants: a zone that straddles midnight
+            // (its newest instant earlier in the day than its oldest) still has to be read
+            out.push(Q {
+                text: format!("QUERY t SINCE \"1700006400\" USING d{w}"),
+                pred: p.clone(),
+                ctx: None,
+                since: Some((1700006400, Some("d".into()))),
             });
         }
     }
@@ -453,7 +463,7 @@ pub fn check(tier: &str) -> i32 {
     cfgs.push(SysConfig { fill_factor: 1, event_per_zone: 100, shards: 1, ..Default::default() });
     cfgs.push(SysConfig { fill_factor: 3, event_per_zone: 70, shards: 1, ..Default::default() });
     let bulk = |n: usize, common: usize, at: &[(usize, usize)]| -> Vec<usize> { (0..n).map(|i| at.iter().find(|(p, _)| *p == i).map(|(_, v)| *v).unwrap_or(common)).collect() };
-    let mut datasets3: Vec<Vec<usize>> = vec![bulk(230, 1, &[(63, 2), (64, 3), (99, 4), (100, 5), (129, 6), (199, 7), (229, 8)])];
+    let mut datasets3: Vec<Vec<usize>> = vec![bulk(230, 1, &[(63, 2), (64, 3), (99, 4), (100, 5), (129, 6), (150, 9), (199, 7), (229, 8)])];
     if tier != "quick" {
         datasets3.push(bulk(130, 7, &[(0, 9), (64, 0), (69, 2), (70, 3), (129, 4)]));
         datasets3.push(bulk(300, 9, &[(65, 0), (66, 0), (139, 5), (140, 6), (209, 8), (299, 2)]));
